@@ -79,7 +79,8 @@ def scripted_case(case):
             raise LoadflowNotConverged("scripted")
         net["converged"] = True
     try:
-        run_control(net, run=run, max_iter=case["max_iter"], check_each_level=case["check_each_level"])
+        kw = {} if case["check_each_level"] == "default" else {"check_each_level": case["check_each_level"]}
+        run_control(net, run=run, max_iter=case["max_iter"], **kw)
         oc = "returned"
     except Exception as e:
         oc = type(e).__name__
@@ -90,6 +91,10 @@ def scripted_case(case):
     lvls = [c[0] if isinstance(c[0], list) else [c[0]] for c in case["ctrls"]]
     if oc == "returned":
         unconv = [i for i, c in enumerate(ctr) if case["ctrls"][i][3] and c.need != 0]
+        if unconv and case["check_each_level"] is False:
+            # explicit, documented opt-out of the per-level convergence check: counted, not judged
+            unconv = []
+            toks.append("opted_out")
         if unconv:
             t = list(toks)
             # recorded defect: levels are processed once in ascending order and never revisited
@@ -108,7 +113,7 @@ def scripted_case(case):
         vs.append(core.violation("initialize_first", {"log": log[:8]}, tokens=toks, klass="init_order"))
     if oc == "returned" and (kinds.count("final") != sum(1 for c in case["ctrls"] if c[3]) * 1 and kinds.count("final") < 1):
         vs.append(core.violation("finalize_called", {"log": log[-8:]}, tokens=toks, klass="final_missing"))
-    seg, last_level_seen = [], -1
+    seg, last_level_seen = [], float("-inf")
     for e in log + [("run", -1)]:
         if e[0] == "step":
             seg.append(e[1])
@@ -167,7 +172,7 @@ def gen_scripted(tier):
         for r in range(len(pairs2) + 1):
             for D in itertools.combinations(pairs2, r):
                 for mi in (1, 3):
-                    for cel in (True, False):
+                    for cel in (True, False, "default"):
                         cases.append({"part": "scripted", "ctrls": [c0, c1], "D": [list(d) for d in D], "max_iter": mi, "check_each_level": cel})
     c_opts3 = [[lv, o, need, True] for lv in lv_opts for o in (0, 1) for need in (0, 1)]
     pairs3 = [(i, j) for i in range(3) for j in range(3) if i != j]
@@ -176,6 +181,17 @@ def gen_scripted(tier):
         for r in range(maxd + 1):
             for D in itertools.combinations(pairs3, r):
                 cases.append({"part": "scripted", "ctrls": list(cs), "D": [list(d) for d in D], "max_iter": 3, "check_each_level": True})
+    # level values whose set-iteration order differs from their numeric order, and a controller that never converges within max_iter
+    for la, lb in ((-1, 0), (0, -1), (1, 8), (8, 1), (0.5, 2), (10, 2), (3, 16)):
+        for na_, nb in ((1, 1), (0, 1), (1, 0), (2, 1)):
+            for D in ([], [[0, 1]], [[1, 0]]):
+                for cel in (True, "default"):
+                    cases.append({"part": "scripted", "ctrls": [[la, 0, na_, True], [lb, 0, nb, True]], "D": D, "max_iter": 3, "check_each_level": cel})
+    for lv0, lv1 in ((0, 1), (1, 0), (0, 0)):
+        for n0, n1 in ((9, 0), (0, 9), (9, 1), (1, 9)):
+            for cel in (True, False, "default"):
+                for mi in (1, 3):
+                    cases.append({"part": "scripted", "ctrls": [[lv0, 0, n0, True], [lv1, 1, n1, True]], "D": [], "max_iter": mi, "check_each_level": cel})
     # out-of-service controller never steps and does not block convergence
     cases.append({"part": "scripted", "ctrls": [[0, 0, 2, False], [0, 1, 1, True]], "D": [], "max_iter": 3, "check_each_level": True})
     return cases
